@@ -15,7 +15,7 @@ func init() {
 
 func runC10(c *Ctx) {
 	r := c.R
-	r.Rule("S1", "provenance stamped on every decoded document; counters advance once", 10)
+	r.Rule("S1", "provenance stamped on every decoded document; counters advance once", 9)
 	r.Rule("S2", "fresh context per document; one print per evaluation", 3)
 	r.Rule("S3", "the shared expression tree carries no state between evaluations", 100)
 	r.Rule("S4", "decoder state written by Decode is reset by Init", 8)
@@ -331,5 +331,3 @@ func checkS2(c *Ctx, fn *ssa.Function) {
 		}
 	}
 }
-
-func ruleS3(c *Ctx, rule string) {}
